@@ -219,6 +219,31 @@ Qed.
 (* ------------------------------------------------------------------------- *)
 (* the invariant                                                             *)
 
+Section WithTorn.
+Variable tornp : nat -> bool.
+Notation step := (RSet.step tornp).
+Notation run := (RSet.run tornp).
+Notation strip := (RSet.strip tornp).
+Notation good := (RSet.good tornp).
+
+Lemma good_app a b : good (a ++ b) = good a ++ good b.
+Proof. apply filter_app. Qed.
+
+Lemma good_strip l : good (strip l) = good l.
+Proof.
+  induction l as [|x r IH]; cbn; auto.
+  destruct (tornp x) eqn:E; cbn; auto. rewrite E; reflexivity.
+Qed.
+
+Lemma strip_head l x r : strip l = x :: r -> tornp x = false.
+Proof.
+  induction l as [|y t IH]; cbn; intros H; try discriminate.
+  destruct (tornp y) eqn:E; auto. inversion H; subst; auto.
+Qed.
+
+Lemma strip_nil_good l : strip l = [] -> good l = [].
+Proof. intros H. rewrite <- good_strip, H. reflexivity. Qed.
+
 Record InvP (ch : list chanst) (mb : list (mid * cid)) (rd : list mid) (nx : mid) (bt : list mid)
             (hs : list event) (ad : list cid) (ev : list (mid * cid)) : Prop := {
   P_sub : forall m c, In (m, c) mb -> In (m, c) ev;
@@ -236,7 +261,8 @@ Record InvP (ch : list chanst) (mb : list (mid * cid)) (rd : list mid) (nx : mid
   P_wake : forall m c, In (m, c) mb -> pendc ch c = true -> In m rd \/ In m bt;
   P_evid : forall e, In e hs -> ev_id e < nx;
   P_fifo : forall m c, In (m, c) ev ->
-           msgs_of (filter (fid m) hs) ++ queue (getc ch c) = sent (getc ch c);
+           msgs_of (filter (fid m) hs) ++ good (queue (getc ch c)) = good (sent (getc ch c));
+  P_vis : forall m x, In (EvMsg m x) hs -> tornp x = false;
   P_unadd : forall c, ~ In c ad -> queue (getc ch c) = sent (getc ch c);
   P_live : forall m c, In (m, c) mb -> ~ In (EvClosed m) hs;
   P_dead : forall m c, In (m, c) ev -> ~ In (m, c) mb ->
@@ -245,7 +271,7 @@ Record InvP (ch : list chanst) (mb : list (mid * cid)) (rd : list mid) (nx : mid
 
 Ltac dI H :=
   destruct H as [Hsub Hndf Hnds Hmndf Hmnds Hadd Hnx Hbd Hrnd Hrmem Hbnd Hbmem Hwake Hevid
-                 Hfifo Hunadd Hlive Hdead].
+                 Hfifo Hvis Hunadd Hlive Hdead].
 
 Definition Inv (s : st) : Prop :=
   InvP (chans s) (members s) (ready s) (nextid s) (batch_of s) (hist s) (added s) (ever s).
@@ -285,7 +311,7 @@ Proof.
     + unfold pendc in Hp. rewrite Go in Hp by auto.
       destruct (Hwake _ _ Hi Hp); auto. left; apply edge_incl; auto.
   - intros m c' Hi. destruct (Nat.eq_dec c' c) as [->|Hne].
-    + rewrite Gs, Hq, Hs, app_assoc. f_equal. auto.
+    + rewrite Gs, Hq, Hs, !good_app, app_assoc. f_equal. auto.
     + rewrite Go by auto. auto.
   - intros c' Hn. destruct (Nat.eq_dec c' c) as [->|Hne].
     + rewrite Gs, Hq, Hs. f_equal; auto.
@@ -334,8 +360,9 @@ Proof.
   - intros e Hi. apply Hevid in Hi. lia.
   - intros m c' Hi. apply in_app_iff in Hi. destruct Hi as [Hi|[Hi|[]]]; auto.
     inversion Hi; subst. rewrite filter_none.
-    + cbn. apply Hunadd; auto.
+    + cbn. f_equal. apply Hunadd; auto.
     + intros e He. apply Hevid in He. lia.
+  - exact Hvis.
   - intros c' Hn. apply Hunadd. intros Hi; apply Hn; right; auto.
   - intros m c' Hi. apply in_app_iff in Hi. destruct Hi as [Hi|[Hi|[]]]; eauto.
     inversion Hi; subst. intros He. apply Hevid in He. cbn in He. lia.
@@ -357,13 +384,49 @@ Proof.
     apply (In_firstn_skipn n) in Hr. tauto.
 Qed.
 
+(* LRecv: the torn messages at the head of the member's queue are dropped *)
+Lemma strip_pend l : strip l <> [] -> l <> [].
+Proof. destruct l; cbn; congruence. Qed.
+
+Lemma InvP_strip ch mb rd nx bt hs ad ev m c :
+  InvP ch mb rd nx bt hs ad ev -> In (m, c) mb ->
+  InvP (set_nth ch c {| queue := strip (queue (getc ch c)); hup := hup (getc ch c); sent := sent (getc ch c) |})
+       mb rd nx bt hs ad ev.
+Proof.
+  intros H Hm. dI H.
+  assert (Hme := Hsub _ _ Hm).
+  assert (Hc := Hbd _ _ Hme).
+  set (v := {| queue := strip (queue (getc ch c)); hup := hup (getc ch c); sent := sent (getc ch c) |}).
+  assert (Gs : getc (set_nth ch c v) c = v) by (apply nth_set_same; auto).
+  assert (Go : forall c', c' <> c -> getc (set_nth ch c v) c' = getc ch c')
+    by (intros; apply nth_set_other; auto).
+  assert (U2 : forall m', In (m', c) ev -> m' = m)
+    by (intros m' Hx; apply (nodup_snd_uniq ev m' m c); auto).
+  constructor; try assumption.
+  - intros m' c' Hi. rewrite set_nth_length. eauto.
+  - intros m' c' Hi Hp. destruct (Nat.eq_dec c' c) as [->|Hne].
+    + apply (Hwake m' c Hi). unfold pendc in *. rewrite Gs in Hp. cbn [queue hup v] in Hp.
+      destruct (queue (getc ch c)) as [|y t] eqn:Q; auto.
+    + unfold pendc in Hp. rewrite Go in Hp by auto. eauto.
+  - intros m' c' Hi. destruct (Nat.eq_dec c' c) as [->|Hne].
+    + rewrite Gs. cbn [queue sent v]. rewrite good_strip. auto.
+    + rewrite Go by auto. auto.
+  - intros c' Hn. assert (c' <> c).
+    { intro; subst. apply Hn. apply Hadd. apply in_map_iff. exists (m, c); auto. }
+    rewrite Go by auto. auto.
+  - intros m' c' Hi Hn. destruct (Hdead _ _ Hi Hn) as (A & B & C).
+    assert (c' <> c).
+    { intro; subst c'. assert (m' = m) by auto. subst. auto. }
+    rewrite Go by auto. auto.
+Qed.
+
 (* LRecv: a message *)
 Lemma InvP_recv_msg ch mb rd nx m rest hs ad ev c x q' :
-  InvP ch mb rd nx (m :: rest) hs ad ev -> In (m, c) mb -> queue (getc ch c) = x :: q' ->
+  InvP ch mb rd nx (m :: rest) hs ad ev -> In (m, c) mb -> queue (getc ch c) = x :: q' -> tornp x = false ->
   InvP (set_nth ch c {| queue := q'; hup := hup (getc ch c); sent := sent (getc ch c) |})
        mb rd nx (m :: rest) (hs ++ [EvMsg m x]) ad ev.
 Proof.
-  intros H Hm Hq. dI H.
+  intros H Hm Hq Htx. dI H.
   assert (Hme := Hsub _ _ Hm).
   assert (Hc := Hbd _ _ Hme).
   set (v := {| queue := q'; hup := hup (getc ch c); sent := sent (getc ch c) |}).
@@ -383,9 +446,11 @@ Proof.
   - intros m' c' Hi. rewrite filter_snoc; cbn [ev_id].
     destruct (Nat.eqb_spec m m') as [E|E].
     + subst m'. assert (c' = c) by auto. subst c'.
-      rewrite msgs_of_app, Gs. cbn. rewrite <- app_assoc. cbn. rewrite <- Hq. auto.
+      rewrite msgs_of_app, Gs. cbn [msgs_of flat_map queue sent app]. rewrite <- app_assoc. cbn [app].
+      subst v; cbn [queue sent]. rewrite <- (Hfifo _ _ Hi), Hq. cbn. rewrite Htx. reflexivity.
     + assert (c' <> c) by (intro; subst; apply E; symmetry; auto).
       rewrite Go by auto. auto.
+  - intros m' x' Hi. apply in_app_iff in Hi. destruct Hi as [Hi|[Hi|[]]]; eauto. inversion Hi; subst; auto.
   - intros c' Hn. assert (c' <> c).
     { intro; subst. apply Hn. apply Hadd. apply in_map_iff. exists (m, c); auto. }
     rewrite Go by auto. auto.
@@ -433,6 +498,7 @@ Proof.
   - intros m' c' Hi. rewrite filter_snoc; cbn [ev_id].
     destruct (Nat.eqb m m'); auto.
     rewrite msgs_of_app. cbn. rewrite app_nil_r. auto.
+  - intros m' x' Hi. apply in_app_iff in Hi. destruct Hi as [Hi|[Hi|[]]]; eauto. discriminate.
   - intros m' c' Hi He. apply Fin in Hi. destruct Hi as [Hi Hne].
     apply in_app_iff in He. destruct He as [He|[He|[]]].
     + eapply Hlive; eauto.
@@ -513,15 +579,30 @@ Proof.
     destruct b as [|m rest]; try discriminate.
     destruct (lookup (members s) m) as [c|] eqn:L; try discriminate.
     apply lookup_In in L.
-    destruct (queue (get s c)) as [|x q'] eqn:Q.
-    + destruct (hup (get s c)) eqn:Hu.
-      * inversion St; subst; clear St. unfw W H. rewrite app_assoc.
-        eapply InvP_recv_closed; eauto.
-      * inversion St; subst; clear St. unfw W H.
+    cbn [queue hup sent] in St.
+    change (get s c) with (getc (chans s) c) in St.
+    assert (HS : InvP (set_nth (chans s) c {| queue := strip (queue (getc (chans s) c)); hup := hup (getc (chans s) c);
+                                              sent := sent (getc (chans s) c) |})
+                      (members s) (ready s) (nextid s) (m :: rest) (log s ++ acc) (added s) (ever s)).
+    { unfw W H. eapply InvP_strip; eauto. }
+    assert (Hc : c < length (chans s)).
+    { unfw W H. dI H. eauto. }
+    assert (Gs : forall v, getc (set_nth (chans s) c v) c = v) by (intros; apply nth_set_same; auto).
+    destruct (strip (queue (getc (chans s) c))) as [|x q'] eqn:Q.
+    + destruct (hup (getc (chans s) c)) eqn:Hu.
+      * inversion St; subst; clear St. unf. rewrite app_assoc.
+        eapply InvP_recv_closed; eauto; rewrite Gs; reflexivity.
+      * inversion St; subst; clear St. unf.
         eapply InvP_recv_block; eauto.
-        unfold pendc. change (getc (chans s) c) with (get s c). rewrite Q. exact Hu.
-    + inversion St; subst; clear St. unfw W H. rewrite app_assoc.
+        unfold pendc. rewrite Gs. reflexivity.
+    + inversion St; subst; clear St. unf. rewrite app_assoc.
+      match goal with |- InvP (set_nth (set_nth ?ch ?c ?v0) _ _) _ _ _ _ _ _ _ =>
+        replace {| queue := q'; hup := hup (getc (chans s) c); sent := sent (getc (chans s) c) |}
+          with {| queue := q'; hup := hup (getc (set_nth ch c v0) c); sent := sent (getc (set_nth ch c v0) c) |}
+          by (rewrite Gs; reflexivity) end.
       eapply InvP_recv_msg; eauto.
+      * rewrite Gs. reflexivity.
+      * eapply strip_head; eauto.
   - (* LReturn *)
     destruct (where_ s) as [| |b acc] eqn:W; try discriminate.
     destruct b as [|m rest]; try discriminate.
@@ -588,9 +669,32 @@ Qed.
 
 (* 4 *)
 Theorem events_fifo : forall ls s m c, run init ls = Some s -> In (m, c) (ever s) ->
-  msgs_of (events_of s m) ++ queue (get s c) = sent (get s c).
+  msgs_of (events_of s m) ++ good (queue (get s c)) = good (sent (get s c)).
 Proof.
   intros ls s m c R Hi. apply reach_Inv in R. dI R. exact (Hfifo _ _ Hi).
+Qed.
+
+(* 4' an unfinished message of a crashed sender is never reported *)
+Theorem torn_invisible : forall ls s m x, run init ls = Some s -> In (EvMsg m x) (log s ++ acc_of s) -> tornp x = false.
+Proof.
+  intros ls s m x R Hi. apply reach_Inv in R. dI R. eauto.
+Qed.
+
+(* 4'' what one non-blocking receive on the head of the batch does when torn messages head the member's queue: it reports the first
+   complete message behind them; with none behind them, the closure when every sender is gone - in the SAME call - and
+   otherwise it moves on (EWOULDBLOCK) having consumed them *)
+Theorem recv_skips_torn : forall s m rest acc c, where_ s = Draining (m :: rest) acc -> lookup (members s) m = Some c ->
+  exists s', step s LRecv = Some s' /\
+    match strip (queue (get s c)) with
+    | x :: q' => where_ s' = Draining (m :: rest) (acc ++ [EvMsg m x]) /\ tornp x = false
+    | [] => if hup (get s c) then where_ s' = Draining rest (acc ++ [EvClosed m])
+            else where_ s' = Draining rest acc
+    end.
+Proof.
+  intros s m rest acc c W L. cbn [step]. rewrite W, L. cbv zeta. cbn [queue hup sent].
+  destruct (strip (queue (get s c))) as [|x q'] eqn:Q.
+  - destruct (hup (get s c)); eexists; split; reflexivity.
+  - eexists; split; [reflexivity|]. cbn [where_]. split; auto. eapply strip_head; eauto.
 Qed.
 
 (* 5 *)
@@ -616,12 +720,34 @@ Proof.
 Qed.
 
 (* non-vacuity: a message queued before the add, then the hang-up, are both delivered, in order *)
+
+End WithTorn.
+
+(* without crashed senders the statement is the plain one *)
+Corollary events_fifo_plain : forall ls s m c, run (fun _ => false) init ls = Some s -> In (m, c) (ever s) ->
+  msgs_of (events_of s m) ++ queue (get s c) = sent (get s c).
+Proof.
+  intros ls s m c R Hi. generalize (events_fifo _ ls s m c R Hi).
+  assert (G : forall l, good (fun _ => false) l = l).
+  { induction l as [|x l IH]; [reflexivity|]. unfold good in *. cbn [filter negb]. f_equal. exact IH. }
+  rewrite !G. auto.
+Qed.
+
+(* non-vacuity: a message queued before the add, then the hang-up, are both delivered, in order *)
 Example demo_run :
-  option_map log (run init [LNewChan; LSend 0 7; LAdd 0; LHup 0; LSelect; LWaitEintr; LWait;
+  option_map log (run (fun _ => false) init [LNewChan; LSend 0 7; LAdd 0; LHup 0; LSelect; LWaitEintr; LWait;
+                            LRecv; LRecv; LReturn]) = Some [EvMsg 0 7; EvClosed 0].
+Proof. vm_compute. reflexivity. Qed.
+(* ... and with the sender killed inside its second message (id 8): the first is reported, the torn one is not, the closure is *)
+Example demo_run_torn :
+  option_map log (run (fun x => Nat.eqb x 8) init [LNewChan; LSend 0 7; LSend 0 8; LAdd 0; LHup 0; LSelect; LWait;
                             LRecv; LRecv; LReturn]) = Some [EvMsg 0 7; EvClosed 0].
 Proof. vm_compute. reflexivity. Qed.
 
 Print Assumptions no_lost_wakeup.
+Print Assumptions torn_invisible.
+Print Assumptions recv_skips_torn.
+Print Assumptions events_fifo_plain.
 Print Assumptions select_does_not_block.
 Print Assumptions recv_knows_its_member.
 Print Assumptions structure.
